@@ -3269,9 +3269,15 @@ class Mailbox:
 
         # Escape regex metacharacters, then convert IMAP wildcards.
         #
-        mbox_match = "^" + re.escape(mbox_match) + "$"
+        mbox_match = re.escape(mbox_match)
         mbox_match = mbox_match.replace(r"\*", r".*").replace(r"%", r"[^\/]*")
-        return mbox_match
+
+        # NOTE: The name INBOX matches a pattern whatever the case of the
+        #       letters in the pattern (`IN*`, `I%X`), not only when the
+        #       pattern is the whole word: a second alternative that is only
+        #       tried on the name `inbox` and ignores case.
+        #
+        return f"^{mbox_match}$|^(?=inbox$)(?i:{mbox_match})$"
 
     ####################################################################
     #
